@@ -1369,6 +1369,218 @@ impl fmt::Debug for CompositionGraph {
     }
 }
 
+/// Verification hooks (read-only); compiled only with `--cfg wac_verif`.
+#[cfg(wac_verif)]
+impl CompositionGraph {
+    /// Checks the internal bookkeeping of the graph and returns a description
+    /// of every inconsistency found (empty when consistent).
+    pub fn verif_invariant_violations(&self) -> Vec<String> {
+        let mut out = Vec::new();
+        for index in self.graph.node_indices() {
+            let node = &self.graph[index];
+            let i = index.index();
+            let mut alias_in = 0usize;
+            let mut arg_in: Vec<usize> = Vec::new();
+            let mut other_in = 0usize;
+            for e in self.graph.edges_directed(index, Direction::Incoming) {
+                match e.weight() {
+                    Edge::Alias(_) => {
+                        alias_in += 1;
+                        if !matches!(self.graph[e.source()].item_kind, ItemKind::Instance(_)) {
+                            out.push(format!("alias node {i}: source {} is not an instance", e.source().index()));
+                        }
+                    }
+                    Edge::Argument(a) => arg_in.push(*a),
+                    Edge::Dependency => other_in += 1,
+                }
+            }
+            match &node.kind {
+                NodeKind::Instantiation(satisfied) => {
+                    let mut sorted = arg_in.clone();
+                    sorted.sort_unstable();
+                    let mut dedup = sorted.clone();
+                    dedup.dedup();
+                    if dedup.len() != sorted.len() {
+                        out.push(format!("instantiation {i}: an argument index has several incoming edges: {sorted:?}"));
+                    }
+                    let mut sat: Vec<usize> = satisfied.iter().copied().collect();
+                    sat.sort_unstable();
+                    if sat != dedup {
+                        out.push(format!("instantiation {i}: satisfied set {sat:?} differs from incoming argument edges {dedup:?}"));
+                    }
+                    if alias_in + other_in != 0 {
+                        out.push(format!("instantiation {i}: has non-argument incoming edges"));
+                    }
+                    match node.package {
+                        None => out.push(format!("instantiation {i}: no package")),
+                        Some(p) => {
+                            if let Some(Some(pkg)) = self.packages.get(p.index).map(|e| e.package.as_ref()) {
+                                let n = self.types[pkg.ty()].imports.len();
+                                if let Some(bad) = sat.iter().find(|a| **a >= n) {
+                                    out.push(format!("instantiation {i}: satisfied index {bad} out of range"));
+                                }
+                            }
+                        }
+                    }
+                }
+                NodeKind::Alias => {
+                    if alias_in != 1 {
+                        out.push(format!("alias node {i}: {alias_in} incoming alias edges"));
+                    }
+                    if !arg_in.is_empty() || other_in != 0 {
+                        out.push(format!("alias node {i}: unexpected incoming edges"));
+                    }
+                }
+                NodeKind::Import(name) => {
+                    if self.imports.get(name) != Some(&index) {
+                        out.push(format!("import node {i}: import map does not map `{name}` to it"));
+                    }
+                    if alias_in + arg_in.len() + other_in != 0 {
+                        out.push(format!("import node {i}: has incoming edges"));
+                    }
+                }
+                NodeKind::Definition => {
+                    if self.defined.get(&node.item_kind.ty()) != Some(&index) {
+                        out.push(format!("definition node {i}: defined map does not map its type to it"));
+                    }
+                    if node.export.is_none() {
+                        out.push(format!("definition node {i}: not exported"));
+                    }
+                    if alias_in != 0 || !arg_in.is_empty() {
+                        out.push(format!("definition node {i}: unexpected incoming edges"));
+                    }
+                }
+            }
+            if let Some(name) = &node.export {
+                if self.exports.get(name) != Some(&index) {
+                    out.push(format!("node {i}: export map does not map `{name}` to it"));
+                }
+            }
+            if let Some(p) = node.package {
+                match self.packages.get(p.index) {
+                    Some(e) if e.package.is_some() && e.generation == p.generation => {}
+                    _ => out.push(format!("node {i}: refers to a dead package id {p:?}")),
+                }
+            }
+        }
+        for (name, n) in &self.exports {
+            match self.graph.node_weight(*n) {
+                None => out.push(format!("export `{name}` refers to dead node {}", n.index())),
+                Some(_) => {}
+            }
+        }
+        for (name, n) in &self.imports {
+            match self.graph.node_weight(*n) {
+                Some(node) if matches!(&node.kind, NodeKind::Import(x) if x == name) => {}
+                Some(_) => out.push(format!("import `{name}` refers to node {} which is not that import", n.index())),
+                None => out.push(format!("import `{name}` refers to dead node {}", n.index())),
+            }
+        }
+        for (ty, n) in &self.defined {
+            match self.graph.node_weight(*n) {
+                Some(node) if matches!(node.kind, NodeKind::Definition) && node.item_kind.ty() == *ty => {}
+                Some(_) => out.push(format!("defined type refers to node {} which does not define it", n.index())),
+                None => out.push(format!("defined type refers to dead node {}", n.index())),
+            }
+        }
+        for (key, id) in &self.package_map {
+            match self.packages.get(id.index) {
+                Some(e) if e.generation == id.generation && e.package.as_ref().map(|p| PackageKey::new(p) == *key).unwrap_or(false) => {}
+                _ => out.push(format!("package map entry `{key}` refers to a dead or different package slot")),
+            }
+        }
+        for (i, e) in self.packages.iter().enumerate() {
+            let free = self.free_packages.iter().filter(|f| **f == i).count();
+            match &e.package {
+                Some(p) => {
+                    if free != 0 {
+                        out.push(format!("package slot {i} is occupied but on the free list"));
+                    }
+                    if !self.package_map.contains_key(&PackageKey::new(p)) {
+                        out.push(format!("package slot {i} is occupied but not in the package map"));
+                    }
+                }
+                None => {
+                    if free != 1 {
+                        out.push(format!("package slot {i} is empty but appears {free} times on the free list"));
+                    }
+                }
+            }
+        }
+        out
+    }
+
+    /// A deterministic textual dump of the graph's internal state (excluding
+    /// the subtype check cache), used to key explored states.
+    pub fn verif_dump(&self) -> String {
+        let mut s = String::new();
+        for index in self.graph.node_indices() {
+            let node = &self.graph[index];
+            let kind = match &node.kind {
+                NodeKind::Definition => "def".to_string(),
+                NodeKind::Import(n) => format!("import({n})"),
+                NodeKind::Instantiation(sat) => {
+                    let mut v: Vec<_> = sat.iter().copied().collect();
+                    v.sort_unstable();
+                    format!("inst({v:?})")
+                }
+                NodeKind::Alias => "alias".to_string(),
+            };
+            writeln!(
+                &mut s,
+                "n{} {kind} pkg={:?} item={:?} name={:?} export={:?}",
+                index.index(),
+                node.package,
+                node.item_kind,
+                node.name,
+                node.export
+            )
+            .unwrap();
+        }
+        let mut edges: Vec<String> = self
+            .graph
+            .edge_indices()
+            .map(|e| {
+                let (a, b) = self.graph.edge_endpoints(e).unwrap();
+                let w = match &self.graph[e] {
+                    Edge::Alias(i) => format!("alias({i})"),
+                    Edge::Argument(i) => format!("arg({i})"),
+                    Edge::Dependency => "dep".to_string(),
+                };
+                format!("e {}->{} {w}", a.index(), b.index())
+            })
+            .collect();
+        edges.sort();
+        for e in edges {
+            writeln!(&mut s, "{e}").unwrap();
+        }
+        for (name, n) in &self.exports {
+            writeln!(&mut s, "export {name} -> {}", n.index()).unwrap();
+        }
+        let mut imports: Vec<_> = self.imports.iter().map(|(k, v)| format!("import {k} -> {}", v.index())).collect();
+        imports.sort();
+        for i in imports {
+            writeln!(&mut s, "{i}").unwrap();
+        }
+        let mut defined: Vec<_> = self.defined.iter().map(|(k, v)| format!("defined {k:?} -> {}", v.index())).collect();
+        defined.sort();
+        for d in defined {
+            writeln!(&mut s, "{d}").unwrap();
+        }
+        for (i, e) in self.packages.iter().enumerate() {
+            writeln!(
+                &mut s,
+                "pkg{i} gen={} {}",
+                e.generation,
+                e.package.as_ref().map(|p| p.key().to_string()).unwrap_or_else(|| "-".into())
+            )
+            .unwrap();
+        }
+        writeln!(&mut s, "free={:?}", self.free_packages).unwrap();
+        s
+    }
+}
+
 #[derive(Debug, Copy, Clone, Eq, PartialEq)]
 /// Information about the tool that processed the graph.
 pub struct Processor<'a> {
